@@ -1,2 +1,180 @@
+(* C18/Props.v — property theorems only.  Each is closed by [exact] of a lemma from Lemmas.v and followed by
+   Print Assumptions (parsed by the check: must be "Closed under the global context").  The satisfiability
+   Examples stand beside the lemmas in Lemmas.v (names *_ex).
+
+   Property C18: for any sequence of count or step events, enable, disable, reset, restart and timeout, a
+   counter's value equals its start value plus the number of hits accepted while enabled and outside its
+   multiple-hit window times its interval in its direction, an accrual advances on its configured steps in any
+   order and a sequence only in strict order.  Each posts its hit events once per accepted hit and its
+   completion event exactly once per completion, at the moment the goal is reached, and then resets or disables
+   as configured.
+
+   Vocabulary (Model.v): [exec c s h] runs a history h : list (instant * op) — the external operations AND the
+   expiries of the block's two delays (FireTimeout, FireWindow), at arbitrary instants; every theorem below
+   quantifies over all such histories, so over every timing.  [timed_run_refines_exec] shows that the run the
+   correspondence check compares with the real code (delays fire when the clock passes their deadline) is such
+   a history.  [accepted c s o]: the hit arrives while enabled and (counter) outside the window / (accrual) on
+   a step not yet done / (sequence) on the current step.  [completes c s o]: the block is not completed and the
+   operation reaches the goal.  [ghost] is the bookkeeping of the formula: (base, n) with n the number of
+   accepted hits since the last reset (explicit, by timeout, or on completion with reset_on_complete). *)
 From Common Require Import Prelude.
+From Coq Require Import Permutation.
 From C18 Require Import Model Lemmas.
+Open Scope Z_scope.
+
+(* value = start + hit_value * (accepted hits since the last reset); hit_value = +-|interval| by direction.
+   With the control events add/subtract/jump (outside the property's operation list) the base moves with them. *)
+Theorem counter_value_formula :
+  forall (c : cfg) (h : list (Z * op)),
+    ckind c = KCounter ->
+    let s := fst (exec c (init c) h) in
+    let bn := ghost c (init c) h (start c, 0) in
+    value s = fst bn + hit_value c * snd bn /\ 0 <= snd bn /\
+    (no_control h = true -> value s = start c + hit_value c * snd bn).
+Proof. exact counter_value_formula_l. Qed.
+Print Assumptions counter_value_formula.
+
+(* hit events: exactly one logicblock_<n>_hit per accepted hit, none otherwise (all three kinds) *)
+Theorem hit_events_once_per_accepted_hit :
+  forall c t s o, count_ev is_hit_ev (snd (step c t s o)) = if accepted c s o then 1%nat else 0%nat.
+Proof. exact step_hit_events. Qed.
+Print Assumptions hit_events_once_per_accepted_hit.
+
+Theorem hit_events_count_along_history :
+  forall c h s, count_ev is_hit_ev (snd (exec c s h)) = n_accepted c s h.
+Proof. exact exec_hit_events. Qed.
+Print Assumptions hit_events_count_along_history.
+
+(* hits while disabled / inside the window / on the wrong sequence step change nothing and post nothing *)
+Theorem rejected_hit_is_noop :
+  forall c t s o, ckind c <> KAccrual -> (o = Count \/ exists k, o = Hit k) -> accepted c s o = false ->
+    step c t s o = (s, []).
+Proof. exact rejected_hit_noop. Qed.
+Print Assumptions rejected_hit_is_noop.
+
+(* completion: one event exactly at the operation that reaches the goal of a not yet completed block ... *)
+Theorem complete_once :
+  forall c t s o,
+    count_ev is_complete_ev (snd (step c t s o)) = if completes c s o then 1%nat else 0%nat.
+Proof. exact step_complete_events. Qed.
+Print Assumptions complete_once.
+
+(* ... followed by the configured reset / disable *)
+Theorem complete_then_reset_or_disable :
+  forall c t s o,
+    completes c s o = true ->
+    let s' := fst (step c t s o) in
+    completed s' = negb (roc c) /\
+    enabled s' = enabled s && negb (doc c) /\
+    (roc c = true -> value s' = start_value c /\ steps s' = start_steps c) /\
+    tmo s' = (if doc c then None else if roc c && (0 <? timeout c) then Some (t + timeout c) else None).
+Proof. exact step_completes_state. Qed.
+Print Assumptions complete_then_reset_or_disable.
+
+(* ... and never a second time until the block is reset *)
+Theorem complete_once_until_reset :
+  forall c h s,
+    roc c = false -> forallb (fun to => negb (is_reset_op (snd to))) h = true ->
+    (count_ev is_complete_ev (snd (exec c s h)) <= 1)%nat /\
+    (completed s = true -> count_ev is_complete_ev (snd (exec c s h)) = 0%nat).
+Proof. intros c h s. exact (complete_once_l c h s). Qed.
+Print Assumptions complete_once_until_reset.
+
+(* "at the moment the goal is reached": for the property's operations (no add/subtract/jump) the accepted hit
+   that takes the value from short of the goal to the goal always posts the completion event *)
+Theorem goal_transition_completes :
+  forall c h t, ckind c = KCounter -> no_control h = true ->
+    let s := fst (exec c (init c) h) in
+    accepted c s Count = true ->
+    reached c (value s) = false -> reached c (value s + hit_value c) = true ->
+    count_ev is_complete_ev (snd (step c t s Count)) = 1%nat.
+Proof. exact goal_transition_completes_l. Qed.
+Print Assumptions goal_transition_completes.
+
+(* the guard [no_control] is needed: after a jump back below the goal of a completed, un-reset counter the
+   second arrival at the goal is silent.  (Control events are outside the property's operation list; recorded
+   as an observation in NOTES.md, replayed on the code by corpus/C18/blocks.1.json.) *)
+Theorem control_ops_break_goal_transition :
+  exists c h t, ckind c = KCounter /\
+    let s := fst (exec c (init c) h) in
+    accepted c s Count = true /\
+    reached c (value s) = false /\ reached c (value s + hit_value c) = true /\
+    count_ev is_complete_ev (snd (step c t s Count)) = 0%nat.
+Proof. exact control_ops_break_goal_transition_l. Qed.
+Print Assumptions control_ops_break_goal_transition.
+
+(* accrual: steps in ANY order (and with repetitions); the completion event comes with the hit that sets the
+   last missing step, not before *)
+Theorem accrual_any_order :
+  forall c tks t k s,
+    ckind c = KAccrual -> enabled s = true -> completed s = false ->
+    all_true (mark (map snd tks) (steps s)) = false ->
+    all_true (mark (map snd tks ++ [k]) (steps s)) = true ->
+    let r := exec c s (hits_of tks) in
+    steps (fst r) = mark (map snd tks) (steps s) /\
+    count_ev is_complete_ev (snd r) = 0%nat /\
+    count_ev is_complete_ev (snd (step c t (fst r) (Hit k))) = 1%nat.
+Proof. exact accrual_any_order_l. Qed.
+Print Assumptions accrual_any_order.
+
+Theorem accrual_order_irrelevant :
+  forall ks ks', Permutation ks ks' -> forall l, mark ks l = mark ks' l.
+Proof. exact mark_perm. Qed.
+Print Assumptions accrual_order_irrelevant.
+
+Theorem accrual_complete_iff_all_steps :
+  forall n ks, all_true (mark ks (repeat false n)) = true <-> (forall i, (i < n)%nat -> In i ks).
+Proof. exact accrual_complete_iff_all_steps_l. Qed.
+Print Assumptions accrual_complete_iff_all_steps.
+
+(* sequence: the position only advances on a hit of the current step; any other step is a no-op; the
+   completion event comes with the hit of the last step *)
+Theorem sequence_strict_order :
+  forall c tks t k s,
+    ckind c = KSequence -> enabled s = true -> completed s = false ->
+    seq_adv (value s) (map snd tks) < Z.of_nat (nsteps c) ->
+    let r := exec c s (hits_of tks) in
+    value (fst r) = seq_adv (value s) (map snd tks) /\
+    count_ev is_complete_ev (snd r) = 0%nat /\
+    (Z.of_nat k = value (fst r) -> Z.of_nat (nsteps c) <= value (fst r) + 1 ->
+     count_ev is_complete_ev (snd (step c t (fst r) (Hit k))) = 1%nat) /\
+    (Z.of_nat k <> value (fst r) -> step c t (fst r) (Hit k) = (fst r, [])).
+Proof. exact sequence_strict_order_l. Qed.
+Print Assumptions sequence_strict_order.
+
+(* hit window: the flag is set exactly while the window delay is pending; the delay is (re)armed only by an
+   accepted hit, for now + window, and only its expiry clears the flag: the window always reopens *)
+Theorem window_flag_iff_delay_pending :
+  forall c h, ignore (fst (exec c (init c) h)) = isSome (win (fst (exec c (init c) h))).
+Proof. exact window_invariant_l. Qed.
+Print Assumptions window_flag_iff_delay_pending.
+
+Theorem window_opens_and_closes :
+  forall c t s o,
+    let s' := fst (step c t s o) in
+    (win s' = if opens_window c s o then Some (t + window c)
+              else match o with FireWindow => None | _ => win s end) /\
+    (ignore s' = if opens_window c s o then true
+                 else match o with FireWindow => false | _ => ignore s end).
+Proof. exact window_step_l. Qed.
+Print Assumptions window_opens_and_closes.
+
+(* timeout: posts <n>_timeout, resets, and re-arms itself *)
+Theorem timeout_resets :
+  forall c t s,
+    let '(s', es) := step c t s FireTimeout in
+    value s' = start_value c /\ steps s' = start_steps c /\ completed s' = false /\
+    enabled s' = enabled s /\
+    tmo s' = (if 0 <? timeout c then Some (t + timeout c) else None) /\
+    es = [ETimeout; EUpdated (start_value c) (start_steps c) (enabled s)].
+Proof. exact timeout_resets_l. Qed.
+Print Assumptions timeout_resets.
+
+(* the timed run compared with the real code is an execution of a history (the groups' operations plus delay
+   expiries, each fired only when due: Lemmas.next_due_sound / advance_exec) *)
+Theorem timed_run_refines_exec :
+  forall c groups now s,
+    exists h, fst (trun_aux c now s groups) = fst (exec c s h) /\
+              events_of (snd (trun_aux c now s groups)) = snd (exec c s h).
+Proof. intros c groups now s. exact (timed_run_refines_exec_l c groups now s). Qed.
+Print Assumptions timed_run_refines_exec.
